@@ -9,7 +9,10 @@ exceptional postconditions therefore cover an exception at every such call site 
 
 
 def register(R):
-    R.record("ConsoleL", [("hook_depth", "int"), ("cursor_visible", "bool"), ("is_terminal", "bool"), ("is_jupyter", "bool")],
+    # buffer_depth / unwritten: this thread's buffer context (Console._buffer_index is thread-local) and whether it holds
+    # rendered output that has not reached the file yet
+    R.record("ConsoleL", [("hook_depth", "int"), ("cursor_visible", "bool"), ("is_terminal", "bool"), ("is_jupyter", "bool"),
+                          ("is_dumb_terminal", "bool"), ("buffer_depth", "int"), ("unwritten", "bool")],
              pyclass="rich.console.Console", mutable=True)
     R.record("LiveL", [("_lock", "opaque:RLock"), ("_started", "bool"), ("vertical_overflow", "ostr"), ("auto_refresh", "bool"),
                        ("_refresh_thread", "Optional[opaque:Thread]"), ("console", "ConsoleL"), ("transient", "bool"),
@@ -29,8 +32,38 @@ def register(R):
                trusted="prints new lines through the render hooks: may raise whatever the live renderable raises; touches neither hooks, cursor nor streams")
     R.contract("rich.console", "Console.control", serves=["C10"], params={"self": "ConsoleL", "control_codes": "Control"},
                trusted="writes control codes; touches neither hooks, cursor flag nor streams")
-    R.contract("rich.live", "Live.refresh", serves=["C10"], params={"self": "LiveL"}, raises={"BaseException": "*"},
-               trusted="renders the live renderable (user code): may raise anything at any render; does not touch hooks, cursor flag, streams or _started")
+    # ---- the buffer protocol of Console, restated on the ghost fields (console.py: _enter_buffer / _exit_buffer / _check_buffer)
+    R.contract("rich.console", "Console.__enter__", serves=["C10", "C11"], params={"self": "ConsoleL"}, returns="ConsoleL",
+               modifies=["self.buffer_depth"], ensures=["self.buffer_depth == old(self.buffer_depth) + 1", "result == self"],
+               trusted=T + ": _enter_buffer increments this thread's buffer index")
+    R.contract("rich.console", "Console.__exit__", serves=["C10", "C11"],
+               params={"self": "ConsoleL", "exc_type": "opaque:Any", "exc_value": "opaque:Any", "traceback": "opaque:Any"},
+               modifies=["self.buffer_depth", "self.unwritten"],
+               ensures=["self.buffer_depth == old(self.buffer_depth) - 1",
+                        "implies(self.buffer_depth == 0, not self.unwritten)",
+                        "implies(self.buffer_depth != 0, self.unwritten == old(self.unwritten))"],
+               trusted=T + ": _exit_buffer decrements the index and _check_buffer writes the buffer to the file when the index is back to 0")
+    R.contract("rich.console", "Console.print", serves=["C10", "C11"], params={"self": "ConsoleL", "objects": "Control"},
+               modifies=["self.unwritten"], raises={"BaseException": "*"},
+               ensures=["implies(self.buffer_depth > 0, self.unwritten)", "implies(self.buffer_depth == 0, self.unwritten == old(self.unwritten))"],
+               trusted="renders through the render hooks into this thread's buffer (user renderables: may raise anything); inside a buffer context the "
+                       "output stays buffered, at depth 0 it is written at once; touches neither hooks, cursor flag, streams nor _started")
+    # refresh() on a terminal: the frame rendered under the display's lock is written to the file before the lock is
+    # released (else another thread's frame, positioned relative to this one, can reach the screen first: C11 / C10)
+    # representation invariant of a console's buffer: nothing is left unwritten outside a buffer context
+    R.specfn("console_ok", ["c"], "c.buffer_depth >= 0 and implies(c.buffer_depth == 0, not c.unwritten)")
+    RMON = {"lock": "_lock", "cls": "LiveL", "protects": [],
+            "invariant": ["implies(old(self.console.buffer_depth) == 0, not self.console.unwritten)"]}
+    R.contract("rich.live", "Live.refresh", serves=["C10", "C11"], params={"self": "LiveL"}, raises={"BaseException": "*"},
+               monitor=RMON, modifies=["self.console.unwritten"],
+               requires=["console_ok(self.console)"],
+               scope=["not self.console.is_jupyter"],
+               ensures=["self.console.buffer_depth == old(self.console.buffer_depth)",
+                        "implies(old(self.console.buffer_depth) == 0, not self.console.unwritten)"],
+               ensures_raise={"BaseException": ["self.console.buffer_depth == old(self.console.buffer_depth)",
+                                                "implies(old(self.console.buffer_depth) == 0, not self.console.unwritten)"]},
+               native=False,
+               notes="may raise whatever the renderable raises; does not touch hooks, cursor flag, streams or _started (frame)")
     R.contract("<opaque>", "Thread.stop", serves=["C10"], params={"self": "opaque:Thread"}, trusted="sets the refresh thread's done event")
     R.contract("<opaque>", "Thread.join", serves=["C10"], params={"self": "opaque:Thread"}, trusted="waits for the refresh thread")
     R.contract("<opaque>", "Thread.start", serves=["C10"], params={"self": "opaque:Thread"}, trusted="starts the refresh thread")
@@ -51,27 +84,33 @@ def register(R):
         "self._restore_stdout is None and self._restore_stderr is None",
         "self.vertical_overflow == old(self.vertical_overflow)",
     ]
+    # start() / stop() decide on `_started` and change it: both only under the display's lock, or two threads starting
+    # (stopping) the same display both see "not started" and set it up (tear it down) twice (C11)
+    LMON = {"lock": "_lock", "cls": "LiveL", "protects": ["_started"], "invariant": []}
     R.contract(
-        "rich.live", "Live.stop", serves=["C10"],
+        "rich.live", "Live.stop", serves=["C10", "C11"], monitor=LMON,
+        modifies=["self._started", "self._refresh_thread", "self._restore_stdout", "self._restore_stderr", "self.console.hook_depth", "self.console.cursor_visible", "self._live_render._shape", "self.console.unwritten"],
         params={"self": "LiveL"},
+        requires=["console_ok(self.console)"],
         ghost={"ghost_sys_stdout": "opaque:IO", "ghost_sys_stderr": "opaque:IO"},
         raises={"BaseException": "*"},
-        ensures=["implies(old(self._started), " + c + ")" for c in CLEAN] + ["implies(not old(self._started), self.console.hook_depth == old(self.console.hook_depth))"],
+        ensures=["implies(acq(self._started), " + c + ")" for c in CLEAN] + ["implies(not acq(self._started), self.console.hook_depth == old(self.console.hook_depth))"],
         ensures_raise={"BaseException": CLEAN},
         native=False,
         notes="cleanup holds on the normal path and on every exceptional path out of the try block; the exception propagates",
     )
     R.contract(
-        "rich.live", "Live.start", serves=["C10"],
+        "rich.live", "Live.start", serves=["C10", "C11"], monitor=LMON,
+        modifies=["self._started", "self._refresh_thread", "self._restore_stdout", "self._restore_stderr", "self.console.hook_depth", "self.console.cursor_visible"],
         params={"self": "LiveL"},
         ghost={"ghost_sys_stdout": "opaque:IO", "ghost_sys_stderr": "opaque:IO"},
         requires=["self._restore_stdout is None and self._restore_stderr is None"],
         ensures=[
             "self._started",
-            "implies(not old(self._started), self.console.hook_depth == old(self.console.hook_depth) + 1 and not self.console.cursor_visible)",
-            "implies(not old(self._started) and self.console.is_terminal and self._redirect_stdout, self._restore_stdout == old(ghost_sys_stdout))",
-            "implies(not old(self._started) and self.console.is_terminal and self._redirect_stderr, self._restore_stderr == old(ghost_sys_stderr))",
-            "implies(not old(self._started) and not (self.console.is_terminal and self._redirect_stdout), ghost_sys_stdout == old(ghost_sys_stdout) and self._restore_stdout is None)",
+            "implies(not acq(self._started), self.console.hook_depth == old(self.console.hook_depth) + 1 and not self.console.cursor_visible)",
+            "implies(not acq(self._started) and self.console.is_terminal and self._redirect_stdout, self._restore_stdout == old(ghost_sys_stdout))",
+            "implies(not acq(self._started) and self.console.is_terminal and self._redirect_stderr, self._restore_stderr == old(ghost_sys_stderr))",
+            "implies(not acq(self._started) and not (self.console.is_terminal and self._redirect_stdout), ghost_sys_stdout == old(ghost_sys_stdout) and self._restore_stdout is None)",
         ],
         native=False,
     )
@@ -83,8 +122,26 @@ def register_progress(R):
                            ("_live_render", "LiveRender"), ("ipy_widget", "Optional[opaque:Widget]"),
                            ("_redirect_stdout", "bool"), ("_redirect_stderr", "bool"),
                            ("_restore_stdout", "Optional[opaque:IO]"), ("_restore_stderr", "Optional[opaque:IO]"),
-                           ("refresh_per_second", "float")],
+                           ("refresh_per_second", "float"), ("disable", "bool")],
              pyclass="rich.progress.Progress", mutable=True)
+    R.contract("rich.live_render", "LiveRender.set_renderable", serves=["C10", "C11", "C12"], params={"self": "LiveRender", "renderable": "opaque:Renderable"},
+               trusted="stores the renderable to draw next (one attribute assignment); the shape is only changed by rendering")
+    R.contract("rich.progress", "Progress.get_renderable", serves=["C10", "C11", "C12"], params={"self": ["ProgressL", "Progress"]}, returns="opaque:Renderable",
+               raises={"BaseException": "*"},
+               trusted="builds the tasks table from the columns (user code: may raise anything); only reads task fields (by inspection: "
+                       "get_renderable / get_renderables / make_tasks_table)")
+    PRMON = {"lock": "_lock", "cls": "ProgressL", "protects": [],
+             "invariant": ["implies(old(self.console.buffer_depth) == 0, not self.console.unwritten)"]}
+    R.contract("rich.progress", "Progress.refresh", serves=["C10", "C11", "C12"], params={"self": ["ProgressL", "Progress"]},
+               raises={"BaseException": "*"}, monitor=PRMON, modifies=["self.console.unwritten"],
+               requires=["console_ok(self.console)"], scope=["not self.console.is_jupyter"],
+               ensures=["self.console.buffer_depth == old(self.console.buffer_depth)",
+                        "implies(old(self.console.buffer_depth) == 0, not self.console.unwritten)"],
+               ensures_raise={"BaseException": ["self.console.buffer_depth == old(self.console.buffer_depth)",
+                                                "implies(old(self.console.buffer_depth) == 0, not self.console.unwritten)"]},
+               native=False,
+               notes="as Live.refresh: the frame rendered under the lock is on the file before the lock is released; rendering reads the tasks only "
+                     "(frame: nothing but the console's buffer state is modified)")
     R.contract("rich.progress", "Progress._disable_redirect_io", serves=["C10"], inline=True)
     R.contract("rich.progress", "Progress._enable_redirect_io", serves=["C10"], inline=True)
     R.contract("<opaque>", "Widget.clear_output", serves=["C10"], params={"self": "opaque:Widget"}, trusted="jupyter only")
@@ -98,23 +155,27 @@ def register_progress(R):
         "implies(old(self._restore_stderr) is not None, ghost_sys_stderr == old(self._restore_stderr))",
         "self._restore_stdout is None and self._restore_stderr is None",
     ]
+    PMON = {"lock": "_lock", "cls": "ProgressL", "protects": ["_started"], "invariant": []}
     R.contract(
-        "rich.progress", "Progress.stop", serves=["C10"], params={"self": "ProgressL"}, ghost=G,
+        "rich.progress", "Progress.stop", serves=["C10", "C11"], params={"self": "ProgressL"}, ghost=G, monitor=PMON,
+        modifies=["self._started", "self._refresh_thread", "self._restore_stdout", "self._restore_stderr", "self.console.hook_depth", "self.console.cursor_visible", "self._live_render._shape", "self.console.unwritten"],
+        requires=["console_ok(self.console)"],
         raises={"BaseException": "*"},
-        ensures=["implies(old(self._started), " + c + ")" for c in CLEAN] + ["implies(not old(self._started), self.console.hook_depth == old(self.console.hook_depth))"],
+        ensures=["implies(acq(self._started), " + c + ")" for c in CLEAN] + ["implies(not acq(self._started), self.console.hook_depth == old(self.console.hook_depth))"],
         ensures_raise={"BaseException": CLEAN},
         native=False,
     )
     # start(): either the display is up (hook pushed, cursor hidden, streams saved), or — when the first
     # refresh raises — everything is as before the call and the exception propagates (__exit__ will not run)
     R.contract(
-        "rich.progress", "Progress.start", serves=["C10"], params={"self": "ProgressL"}, ghost=G,
-        requires=["self._restore_stdout is None and self._restore_stderr is None", "self.console.cursor_visible"],
+        "rich.progress", "Progress.start", serves=["C10", "C11"], params={"self": "ProgressL"}, ghost=G, monitor=PMON,
+        modifies=["self._started", "self._refresh_thread", "self._restore_stdout", "self._restore_stderr", "self.console.hook_depth", "self.console.cursor_visible", "self.console.unwritten"],
+        requires=["self._restore_stdout is None and self._restore_stderr is None", "self.console.cursor_visible", "console_ok(self.console)"],
         raises={"BaseException": "*"},
         ensures=[
             "self._started",
-            "implies(not old(self._started), self.console.hook_depth == old(self.console.hook_depth) + 1 and not self.console.cursor_visible)",
-            "implies(not old(self._started) and self.console.is_terminal and self._redirect_stdout, self._restore_stdout == old(ghost_sys_stdout))",
+            "implies(not acq(self._started), self.console.hook_depth == old(self.console.hook_depth) + 1 and not self.console.cursor_visible)",
+            "implies(not acq(self._started) and self.console.is_terminal and self._redirect_stdout, self._restore_stdout == old(ghost_sys_stdout))",
         ],
         ensures_raise={"BaseException": [
             "not self._started",
